@@ -16,7 +16,8 @@ Definition verdict_eqb (a b : fmt_verdict) : bool :=
 Definition sanity_eqb (a b : sanity) : bool :=
   match a, b with
   | SanOrigNotTokenizable, SanOrigNotTokenizable | SanFmtNotTokenizable, SanFmtNotTokenizable => true
-  | SanRes ScOk, SanRes ScOk | SanRes ScIndexError, SanRes ScIndexError => true
+  | SanRes ScOk, SanRes ScOk => true
+  | SanRes (ScCount a b), SanRes (ScCount c d) => (a =? c) && (b =? d)
   | SanRes (ScBug i), SanRes (ScBug j) => i =? j
   | _, _ => false
   end.
